@@ -36,7 +36,7 @@ def jobs(tier):
     if tier == "quick":
         out = hexstep.step_jobs(tier, checks, "K7", "V7", seed, configs, lambda mi, ci: mi % 2 == ci or mi >= 99)
     else:
-        out = hexstep.step_jobs(tier, checks, "K10", "V12", seed, configs)
+        out = hexstep.step_jobs(tier, checks, "K10", "V12", seed, configs, lambda mi, ci: mi % 2 == ci)
     # multi-operation batches on a pruning trie, committed or aborted by an exception, then a later direct write
     out += hexbatch.batch_jobs(tier, ["exact", "usable"], seed, [True], exits="all")
     if tier != "quick":      # symbolic value content: the solver explores equal / unequal to the stored long value (shared vs unshared leaf)
